@@ -103,6 +103,8 @@ func runC05(c *Ctx) {
 	if a, err := c.anchors(); err == nil {
 		c.shared(func() { c02AnyKind(c, a) }, keyMentions("Collapsing"))
 	}
+	// the slot of an index that is not folded into the edge is index − offset, handed out only inside the window
+	c.shared(func() { c04Normalize(c, "C04-D6") }, keyMentions("Collapsing"))
 	if pr := c.paginated(); pr.err == "" {
 		dense := c.P.NamedType(pkgStore, "DenseStore")
 		for _, ct := range cts {
